@@ -231,9 +231,9 @@ class SmtFlow:
                 if node[0] == "ins":
                     self.step(node[1], node[2], st, ev, depth, nxt)
                 elif node[0] == "if":
-                    st.pop(0)
-                    nxt += self.run(node[1], st, ev, depth)
-                    nxt += self.run(node[2], st, ev, depth)
+                    c = st.pop(0)
+                    nxt += self.run(node[1], st, ev + [("branch", node[-1], c, True)], depth)
+                    nxt += self.run(node[2], st, ev + [("branch", node[-1], c, False)], depth)
                 else:
                     raise Undecided("%s: control flow %s" % (self.m.path, node[0]))
             states = nxt
@@ -268,13 +268,16 @@ class SmtFlow:
                     v = int(x, 16) if x.startswith("0x") else int(x)
                 st.insert(0, ("c", v))
         elif op == "eqw":
-            st.insert(0, self.fresh("flag"))
+            fl = self.fresh("flag")
+            ev.append(("eqw", ln, tuple(st[0:4]), tuple(st[4:8]), fl))
+            st.insert(0, fl)
         elif op in ("eq", "neq"):
             if not imm:
                 st.pop(0)
             st.pop(0)
             st.insert(0, self.fresh("flag"))
         elif op in ("assert_eqw",):
+            ev.append(("assert_eqw", ln, tuple(st[0:4]), tuple(st[4:8])))
             del st[:8]
         elif op in ("assert", "assertz"):
             v = st.pop(0)
@@ -286,9 +289,12 @@ class SmtFlow:
         elif op == "adv":
             pass
         elif op == "hmerge":
+            b_, a_ = tuple(st[0:4]), tuple(st[4:8])         # [B, A, ...] -> hash(A || B)
             del st[:8]
             h = self.fresh("hash")
-            st[:0] = [("f", h[1], "hash%d" % i) for i in range(4)]
+            out_ = [("f", h[1], "hash%d" % i) for i in range(4)]
+            ev.append(("hmerge", ln, a_, b_, tuple(out_)))
+            st[:0] = out_
         elif op == "mtree_get":
             d, i, root = st[0], st[1], tuple(st[2:6])
             ev.append(("mtree_get", ln, d, i, root))
@@ -341,11 +347,13 @@ def r3_smt(ctx, F):
             ctx.violation("UNANALYSABLE|smt::%s" % proc, loc, str(e)[:300])
             continue
         ctx.inst(key="smt::%s" % proc, nontrivial=True)
-        ctx.analysed("smt::%s: %d paths, Merkle operations per path %s" % (proc, len(finals), sorted(set(len(ev) for st, ev in finals))))
+        ctx.analysed("smt::%s: %d paths, Merkle operations per path %s" % (proc, len(finals), sorted(set(len([e for e in ev if e[0].startswith("mtree_")]) for st, ev in finals))))
         seen = set()
         for st, ev in finals:
             cur_root = root_in
             for e in ev:
+                if not e[0].startswith("mtree_"):
+                    continue
                 n_ops += 1
                 kind, ln, d, i, root = e[:5]
                 for what, got, want in (("depth", d, ("c", 64)), ("index", i, ("in", "K", 3)), ("root", root, cur_root)):
@@ -366,6 +374,77 @@ def r3_smt(ctx, F):
                 seen.add(("ret", proc))
                 ctx.violation("smt-returned-root|%s" % proc, loc, "smt::%s leaves %s as the root; expected %s" % (proc, st[4:8], "the root produced by its last mtree_set" if cur_root != root_in else "the input root"))
     ctx.floor("smt-merkle-operations", n_ops, 6)
+
+
+def r3b_smt_values(ctx, F):
+    """smt::get / smt::set: a value word that comes from the advice stack is returned only after it has been authenticated -
+    hmerge(key', value) is asserted equal to a word delivered by the Merkle store, and key' is the requested key (the same word,
+    an assert_eqw with it, or the true branch of an eqw with it); a node word is returned as the value only under the true
+    branch of its comparison with the empty word"""
+    try:
+        M = Module(SMT)
+        txt = open(SMT).read()
+    except (MasmError, OSError) as e:
+        ctx.violation("UNANALYSABLE|smt", "stdlib/asm/collections/smt.masm", str(e)[:200])
+        return
+    consts = {m.group(1): int(m.group(2)) for m in re.finditer(r"^const\.(\w+)=(\d+)", txt, re.M)}
+    ZERO = (("c", 0),) * 4
+    n_auth = 0
+    for proc, layout in (("get", ["K", "R"]), ("set", ["V", "K", "R"])):
+        if proc not in M.procs:
+            continue
+        loc = "stdlib/asm/collections/smt.masm:%d" % M.procs[proc].line
+        stack = []
+        for w in layout:
+            stack += [("in", w, 3 - j) for j in range(4)]
+        stack += [("deep", i) for i in range(len(stack), 40)]
+        K = tuple(("in", "K", 3 - j) for j in range(4))
+        try:
+            finals = SmtFlow(M, consts).run(M.procs[proc].body, stack, [])
+        except (Undecided, MasmError, IndexError) as e:
+            ctx.inst(key="smt-values::" + proc, nontrivial=True)
+            ctx.violation("UNANALYSABLE|smt-values::%s" % proc, loc, str(e)[:300])
+            continue
+        reported = set()
+        for pi, (st, ev) in enumerate(finals):
+            W = tuple(st[:4])
+            ctx.inst(key="smt-values::%s|path%d" % (proc, pi), nontrivial=True)
+            taken = {e[2] for e in ev if e[0] == "branch" and e[3] is True}
+            eqws = [e for e in ev if e[0] == "eqw"]
+            asserts = [frozenset((e[2], e[3])) for e in ev if e[0] == "assert_eqw"]
+            store_born = lambda w: all(isinstance(x, tuple) and x[0] == "f" and re.match(r"^(node|old)\d$", str(x[2])) for x in w)
+            advice_born = lambda w: all(isinstance(x, tuple) and x[0] == "f" and x[2] == "advice" for x in w)
+
+            def same_as_key(x):
+                if x == K or frozenset((x, K)) in asserts:
+                    return True
+                return any(frozenset((e[2], e[3])) == frozenset((x, K)) and e[4] in taken for e in eqws)
+            bad = None
+            if advice_born(W):
+                n_auth += 1
+                hm = [e for e in ev if e[0] == "hmerge" and e[3] == W]
+                ok = False
+                for e in hm:
+                    checked = any(e[4] in a and any(store_born(w) for w in a if w != e[4]) for a in asserts)
+                    if checked and same_as_key(e[2]):
+                        ok = True
+                if not ok:
+                    if not hm:
+                        bad = "the value read from the advice stack is returned without being hashed into the leaf"
+                    elif not any(same_as_key(e[2]) for e in hm):
+                        bad = "the value read from the advice stack is authenticated against the leaf hash, but the key stored in that leaf is never compared with the requested key: the value of another key with the same leaf index is returned"
+                    else:
+                        bad = "the hash of the leaf pre-image is not asserted equal to the node delivered by the Merkle store"
+            elif store_born(W):
+                if not any(frozenset((e[2], e[3])) == frozenset((W, ZERO)) and e[4] in taken for e in eqws):
+                    bad = "a tree node is returned as the value without having been compared with the empty word"
+            elif W != ZERO and not all(isinstance(x, tuple) and x[0] == "in" for x in W):
+                bad = "the returned value %s is neither an authenticated advice word, the empty word nor an input" % (W[:1],)
+            ctx.oblig(bad is None)
+            if bad and (proc, bad) not in reported:
+                reported.add((proc, bad))
+                ctx.violation("smt-unauthenticated-value|%s" % proc, loc, "smt::%s: %s" % (proc, bad))
+    ctx.floor("smt-authenticated-values", n_auth, 3)
 
 
 # ---- R4: Merkle mountain range procedures ---------------------------------------------------------------------------------------
@@ -642,7 +721,76 @@ def r4_mmr(ctx, F):
 NATIVE = "/repo/stdlib/asm/crypto/hashes/native.masm"
 
 
-def r5_pipes(ctx, F):
+def r5_hash_memory(ctx, decided):
+    """native::hash_memory [start, end] -> [digest]: requires start < end, hashes the even prefix with hash_memory_even from the
+    state [0 x 11, capacity[0] = is_odd(end - start)] and, for an odd word count, absorbs the last word mem[end - 1] with the
+    padding [1,0,0,0]; the digest is word B of the final state"""
+    from .mmrflow import PipeFlow, tev, Fail
+    ctx.inst(key="native::hash_memory", nontrivial=True)
+    try:
+        M = Module(NATIVE)
+        p = M.procs["hash_memory"]
+        loc = "stdlib/asm/crypto/hashes/native.masm:%d" % p.line
+        paths = PipeFlow(M, loops=decided).run(p.body, [("in", "sa"), ("in", "ea")] + [("deep", i) for i in range(2, 40)], [], [])
+    except (Undecided, MasmError, OSError, KeyError, IndexError) as e:
+        ctx.violation("UNANALYSABLE|native::hash_memory", "stdlib/asm/crypto/hashes/native.masm", str(e)[:300])
+        return
+
+    def val(x, env):
+        return tev(x, env) if not (isinstance(x, tuple) and x and x[0] in ("f", "deep")) else x
+    bad = None
+    try:
+        for sa, ea in [(a, a + n) for a in (0, 1, 2, 7, 1000, 1001) for n in range(1, 9)] + [(5, 5), (9, 3)]:
+            env = {"sa": sa, "ea": ea}
+            live = []
+            for st, ev, gd in paths:
+                try:
+                    if all(tev(c, env) == v for c, v in gd):
+                        live.append((st, ev))
+                except Fail:
+                    pass
+            if len(live) != 1:
+                bad = "%d paths for the range %d..%d" % (len(live), sa, ea)
+                break
+            st, ev = live[0]
+            asserts = [e for e in ev if e[0] == "assert"]
+            if ea <= sa:
+                if not any(val(e[2], env) == 0 for e in asserts):
+                    bad = "an empty or reversed range (%d, %d) must be rejected" % (sa, ea)
+                    break
+                continue
+            if any(val(e[2], env) != 1 for e in asserts):
+                bad = "the valid range %d..%d is rejected" % (sa, ea)
+                break
+            odd = (ea - sa) & 1
+            L = [e for e in ev if e[0] == "hash_loop"]
+            rest = [e for e in ev if e[0] not in ("hash_loop", "assert", "u32assert2")]
+            if len(L) != 1 or [val(x, env) for x in L[0][2]] != [0] * 11 + [odd] or val(L[0][3], env) != sa or val(L[0][4], env) != ea - odd:
+                bad = "for the range %d..%d the even prefix %d..%d must be absorbed from the state [0 x 11, capacity[0] = %d]; hash_memory_even gets (%s, %s) and capacity %s" % (
+                    sa, ea, sa, ea - odd, odd, val(L[0][3], env) if L else None, val(L[0][4], env) if L else None, [val(x, env) for x in L[0][2]][8:] if L else None)
+            elif not odd:
+                if rest or tuple(st[:4]) != L[0][5][4:8] or st[4] != ("deep", 2):
+                    bad = "for an even word count the result must be word B of the state left by hash_memory_even"
+            else:
+                kinds = [e[0] for e in rest]
+                if kinds != ["mem_loadw", "hperm"] or val(rest[0][2], env) != ea - 1:
+                    bad = "for the odd range %d..%d the last word mem[%d] must be loaded and absorbed once (%s at %s)" % (sa, ea, ea - 1, kinds, val(rest[0][2], env) if rest and rest[0][0] == "mem_loadw" else None)
+                elif [val(x, env) for x in rest[1][2][:4]] != [0, 0, 0, 1] or rest[1][2][4:8] != rest[0][3] or rest[1][2][8:12] != L[0][5][8:12]:
+                    bad = "the final permutation must absorb [padding 1,0,0,0 | last word | capacity]"
+                elif tuple(st[:4]) != rest[1][3][4:8] or st[4] != ("deep", 2):
+                    bad = "the result must be word B of the final state above the rest of the stack"
+            if bad:
+                break
+    except (Undecided, Fail, KeyError, IndexError) as e:
+        ctx.violation("UNANALYSABLE|native::hash_memory", loc, str(e)[:300])
+        return
+    ctx.oblig(bad is None)
+    if bad:
+        ctx.violation("native-hash-memory", loc, "native::hash_memory: " + bad)
+
+
+def absorb_loops(ctx, only=None):
+    """decides the two absorbing loops; returns the names whose contract may be used"""
     from . import mmrflow
     from .mmrflow import PipeFlow, TermFlow, tev, Fail
     deep = lambda a, b: [("deep", i) for i in range(a, b)]
@@ -656,6 +804,8 @@ def r5_pipes(ctx, F):
     decided = set()
     # -- (a) the two absorbing loops
     for path, name, op, has_suffix in ((MEM, "pipe_double_words_to_memory", "adv_pipe", True), (NATIVE, "hash_memory_even", "mem_stream", False)):
+        if only is not None and name not in only:
+            continue
         key = "%s::%s" % ("mem" if path == MEM else "native", name)
         ctx.inst(key=key, nontrivial=True)
         loc = path.replace("/repo/", "")
@@ -696,8 +846,24 @@ def r5_pipes(ctx, F):
             ctx.violation("absorb-loop|%s" % key, loc, "%s: %s" % (key, bad))
         else:
             decided.add(name)
+    return decided
+
+
+def r5_pipes(ctx, F):
+    from . import mmrflow
+    from .mmrflow import PipeFlow, TermFlow, tev, Fail
+    deep = lambda a, b: [("deep", i) for i in range(a, b)]
+    IN = lambda n: ("in", n)
+
+    def val(x, env):
+        try:
+            return tev(x, env) if not (isinstance(x, tuple) and x[0] in ("f", "deep")) else x
+        except (Undecided, Fail, KeyError):
+            return x
+    decided = absorb_loops(ctx)
     if len(decided) != 2:
         return
+    r5_hash_memory(ctx, decided)
     MM = Module(MEM)
 
     def msgsize(n):
@@ -855,12 +1021,20 @@ def r5_pipes(ctx, F):
             ctx.violation("mmr-pack", loc, "mmr::pack: " + bad)
 
 
+def r5_native(ctx, F):
+    """the native RPO memory hasher alone (also run under C17)"""
+    decided = absorb_loops(ctx, only=("hash_memory_even",))
+    if "hash_memory_even" in decided:
+        r5_hash_memory(ctx, decided)
+
+
 def run(ctx, F):
     ctx.trusted += ["vlib/masm.py (MASM parser, positional word model for loc_storew/loc_loadw/mem_loadw/mem_storew, C05's data-movement table)",
                     "loop lemma: a loop whose body only drops words and whose guard is depth != 16 ends with depth 16; a loop that copies mem[r] to mem[w] and increments r, w and a counter from -n to 0 copies n consecutive words"]
     ctx.assumptions += ["collections::smt: only the addressing of the Merkle operations and the returned root are decided (C18-R3); collections::mmr: get / add / helpers decided for valid positions (C18-R4), pack / unpack not decided", "pipe_* procedures: only the loop-guard agreement is decided"]
     ctx.run_rule("C18-R1", "truncate_stack saves the top 16 in locals, loops only dropping words until depth 16, and restores the saved words to their original positions", r1_truncate, F)
     ctx.run_rule("C18-R3", "smt::get / smt::set: on every path each mtree_get / mtree_set / mtree_verify is addressed by (LEAF_DEPTH = 64, K[3], current root) and the returned root is the input root or the one produced by the last mtree_set (provenance interpretation of smt.masm)", r3_smt, F)
+    ctx.run_rule("C18-R3b", "smt::get / smt::set: an advice-supplied value is returned only after hmerge(key', value) was asserted equal to a word from the Merkle store and key' was tied to the requested key; a node is returned as value only when it equals the empty word", r3b_smt_values, F)
     ctx.run_rule("C18-R4", "collections::mmr: the loop helpers (trailing ones, ilog2) decided on bit cubes; get loads the owning peak and asks mtree_get for (depth, index) of the leaf inside it; add stores num_leaves + 1, merges trailing_ones(num_leaves) times (left = last peak, right = element) erasing merged slots, and stores the result as the new last peak", r4_mmr, F)
     ctx.run_rule("C18-R5", "pipe_double_words_to_memory / hash_memory_even absorb two words per iteration until the pointers meet; pipe_words_to_memory, pipe_preimage_to_memory, mmr::pack and mmr::unpack drive them with the documented state, addresses, padding and digest comparison", r5_pipes, F)
     ctx.run_rule("C18-R2", "mem.masm loops: entry guard and end-of-body guard are the same function of the loop-carried stack; memcopy's body copies one word and advances the three counters; prologue/epilogue as documented", r2_mem_loops, F)
